@@ -75,6 +75,9 @@ MUTANTS = [
     ("C12", "detect", "engine/phases/__init__.py", "return self.is_enabled and not ctx.has_to_stop", "return self.is_enabled and not ctx.is_interrupted", "phase runs although the failure limit was reached"),
     # ---- C13
     ("C13", "detect", STATE, "            seed += 1\n", "            pass\n", "same seed for every suite"),
+    ("C13", "detect", "generation/hypothesis/builder.py", "    if config.seed is not None:\n        hypothesis_test = hypothesis.seed(config.seed)(hypothesis_test)", "    if config.seed:\n        hypothesis_test = hypothesis.seed(config.seed)(hypothesis_test)", "seed 0 is not applied"),
+    ("C13", "detect", "generation/hypothesis/builder.py", "                if getattr(config.settings, item) != getattr(default, item)\n", "                if item != \"max_examples\" and getattr(config.settings, item) != getattr(default, item)\n", "the user's max_examples is dropped in the settings merge"),
+    ("C13", "detect", "generation/hypothesis/builder.py", "        phases = tuple(phase for phase in settings.phases if phase not in (Phase.reuse, Phase.generate))", "        phases = tuple(phase for phase in settings.phases if phase not in (Phase.reuse,))", "generate phase kept although fuzzing is off"),
     # ---- C14
     ("C14", "detect", "transport/prepare.py", "        final_headers.update(headers)", "        for k, v in headers.items(): final_headers.setdefault(k, v)", "explicit headers no longer win"),
     # ---- C15
